@@ -200,6 +200,14 @@ class RFrame:
                     cells[k] = as_cell(interp, v, node)
                 return self.derive(cells=cells)
             return _Callable(assign)
+        if name in ("mask", "where"):
+            def maskwhere(cond, other=None, **k):
+                if not isinstance(cond, RMask) or k.get("inplace"):
+                    raise Unsupported(f"DataFrame.{name} with this condition", node)
+                blank = cond.cond if name == "mask" else _not(cond.cond)
+                repl = NAN_CELL if other is None else as_cell(interp, other, node)
+                return self.derive(cells=OrderedDict((c, cell_ite(blank, repl, v)) for c, v in self.cells.items()))
+            return _Callable(maskwhere)
         if name in ("notna", "notnull", "isna", "isnull"):
             def fm(*a, **k):
                 neg = name in ("isna", "isnull")
@@ -261,6 +269,14 @@ class RFrame:
 
     def sym_setitem(self, interp, key, value, node):
         use(interp, "pd.rowwise")
+        if isinstance(key, RMask):
+            # df[mask] = scalar: every column of the masked rows
+            cell = aligned_cell(interp, self, value, node)
+            for col in list(self.cells):
+                self.cells[col] = cell_ite(key.cond, cell, self.cells[col])
+                self.colflags.pop(col, None)
+            self.mutated = True
+            return
         if not isinstance(key, str):
             raise Unsupported("frame store with a non-string key", node)
         self.cells[key] = aligned_cell(interp, self, value, node)
@@ -375,7 +391,16 @@ class _Loc:
             f.colflags.pop(col, None)
             f.mutated = True
             return
-        raise Unsupported(".loc[] write other than [mask, column]", node)
+        if isinstance(key, RMask):
+            # .loc[mask] = scalar: EVERY column of the masked rows
+            f = self.frame
+            cell = aligned_cell(interp, f, value, node)
+            for col in list(f.cells):
+                f.cells[col] = cell_ite(key.cond, cell, f.cells[col])
+                f.colflags.pop(col, None)
+            f.mutated = True
+            return
+        raise Unsupported(".loc[] write other than [mask, column] or [mask]", node)
 
 
 class RMask:
